@@ -24,6 +24,8 @@ F = []
 
 def add(id, prop, status, what, schema=BASE, document=None, vectors=None, hazard=None, symptoms=None, commit=None, also=None, options=None, engine="B", extra=None):
     e = {"id": id, "property": prop, "status": status, "what": what}
+    if status == "fixed":
+        e["record"] = "fixed: property=%s %s %s" % (prop, commit, what)
     if also:
         e["also"] = also
     if hazard:
